@@ -462,11 +462,38 @@ def run(chk, pid):
                 continue
             o.setdefault('flavour', rng.randrange(12))
             ops2.append(o)
+        reinstall = False
+        if pid == 'C11' and it % 5 in (2, 4):
+            # a hook below a prefix, the prefix removed by wildcard (what happens to the hook then is not specified), the
+            # route registered again and the hook INSTALLED AGAIN at the same rule: from here on it must fire like on a
+            # fresh router; answers are judged only after the last operation
+            cand = [r for r in uni if [i for i, c in enumerate(r['pat']) if c == 47 and i > 0 and TOKEN not in r['pat'][:i]]]
+            if cand:
+                r = rng.choice(cand)
+                cuts = [i for i, c in enumerate(r['pat']) if c == 47 and i > 0 and TOKEN not in r['pat'][:i]]
+                hp = r['pat'][:rng.choice(cuts)]
+                pre = hp[:rng.randint(1, max(1, len(hp) - 1))]      # a proper prefix: the hook's node lies strictly inside the removed sub-tree
+                hook_r = {'id': 'h', 'pat': hp, 'filters': [], 'names': [], 'meths': [], 'name': ''}
+                # a sibling that leaves the common prefix before the hook's node, so that the hook's node lies strictly inside
+                # the removed sub-tree
+                sib = {'id': r['id'] + 'sib', 'pat': pre + [122, 122, 47, 113], 'filters': [], 'names': [], 'meths': ['GET'], 'name': ''}
+                uni = uni + [sib]
+                ops2 = [{'op': 'add', 'r': r, 'ow': False, 'spelled': None, 'flavour': rng.randrange(12)},
+                        {'op': 'add', 'r': sib, 'ow': False, 'spelled': None, 'flavour': 0},
+                        {'op': 'add_hook', 'r': hook_r, 'flavour': rng.randrange(12)},
+                        {'op': 'remove_prefix', 'pre': pre},
+                        {'op': 'add', 'r': r, 'ow': True, 'spelled': None, 'flavour': rng.randrange(12)},
+                        {'op': 'add_hook', 'r': hook_r, 'flavour': rng.randrange(12)}]
+                reinstall = True
         probes = rl.instances(uni, [97, 47, 49, TOKEN], rng)
         if len(probes) > 10:
             probes = rng.sample(probes, 10)
+        if reinstall:
+            # every instance of the rule under the re-installed hook
+            probes = [q for q in rl.instances([r], [], rng) if q[:len(hp)] == hp][:40] + probes[:4]
         dverbs = ['GET', 'HEAD', 'POST', 'PUT', 'PURGE']
-        t, bad = run_history(rng, ops2, probes, dverbs, len(probes), e2e=0, nverbs=len(dverbs), wsgi_last=True)
+        t, bad = run_history(rng, ops2, probes, dverbs, 0 if reinstall else len(probes), e2e=0, nverbs=len(dverbs), wsgi_last=True,
+                             last_nprobe=len(probes))
         traces.append(t)
         e2e_bad += bad
         chk.count(1, ('dense', json.dumps([strip_op(o) for o in t])[:600]))
